@@ -101,6 +101,7 @@ def example_params(present):
 def load_rule_module():
     es = px.load_module('optimism/EquationSolver.py')
     mod = px.load_module(REL, shims={'optimism.EquationSolver': es})
+    mod.np = c19.NPX          # px.NP plus value predicates (any / all / allclose) that fork on proxies: a slot VALUE of zero is a path of its own
     return mod, es
 
 
@@ -202,6 +203,7 @@ def make_rule_harness(which, present, precond_kind, precond_ip, curvature='posit
                 ex.goal('none_slot_gives_none', Holds(ct[s] is None), info='slot %d' % s)
                 continue
             c = ct[s]
+            ex.goal('present_slot_gives_a_cotangent', Holds(c is not None), info='slot %d is present (its value may be zero) but its cotangent is None' % s)
             ex.goal('cotangent_is_an_array_not_a_tuple', Holds(not isinstance(c, (tuple, list))), info='slot %d' % s)
             cs = onp.asarray(c, dtype=object).reshape(-1)
             numeric = cs.size == 1 and (px.is_sym(cs[0]) or isinstance(cs[0], (int, float, onp.floating)))
@@ -231,7 +233,7 @@ def _meta(h):
               O.Objective.vec_jacobian_p0, O.Objective.vec_jacobian_p1, O.Objective.vec_jacobian_p2, O.Objective.vec_jacobian_p4, O.Objective.apply_precond, O.param_index_update,
               'jaxprs of Objective.hess_vec / vec_jac_xp0 / vec_jac_xp1 / vec_jac_xp2 / vec_jac_xp4 (jit closures built by the real Objective.__init__, traced per run)')
     h.bounds('n=1 unknown; f = k0 x + k1 x^2 + k2 x^3 + sum_k (b_k x + d_k x^2) p_k over the present slots k in {0,1,2,4} (p0,p1,p2 in R^1, p4 scalar): all coefficients, '
-             'the state Uu, all parameter values and the cotangent v symbolic; f_xx(Uu,p) > 0; cg tolerance: tol > 0 symbolic (cg_tol = tol/5), max_cg_iters = 3; '
+             'the state Uu, all parameter values (INCLUDING zero: numpy value predicates such as np.any / np.allclose on a slot fork the path) and the cotangent v symbolic; f_xx(Uu,p) > 0; cg tolerance: tol > 0 symbolic (cg_tol = tol/5), max_cg_iters = 3; '
              'Euclidean and preconditioned CG inner products; identity / arbitrary positive scalar preconditioner')
     h.assume_note('hybrid: the objective is the real Objective class; its jitted closures are evaluated through their jaxprs by JX on the proxy arrays (replay: the real jitted closures)',
                   'stub: SparseCholesky (sksparse absent) replaced by the identity or an arbitrary positive scalar preconditioner',
@@ -445,6 +447,7 @@ def make_contraction_harness(which, present):
             if s not in present:
                 ex.goal('none_slot_gives_none', Holds(ct is None), info='slot %d' % s)
                 continue
+            ex.goal('present_slot_gives_a_cotangent', Holds(ct is not None), info='slot %d is present (its value may be zero) but its cotangent is None' % s)
             want = NP.dot(lam, G[s])         # lam^T G_k  (= -(H^-1 v)^T dg/dp_k)
             got = onp.asarray(ct, dtype=object).reshape(-1)
             wantf = onp.asarray(want, dtype=object).reshape(-1)
